@@ -49,6 +49,84 @@ def _deref_dtype_local(func: ast.AST, d: ast.AST) -> ast.AST:
     return d
 
 
+def ignored_dims_selector(ctx, rep, rule: str) -> None:
+    """Which dimensions of a block get a factor / an eigenbasis: dimension d of a block is preconditioned iff d is not listed
+    in `ignored_dims` — for every block order, with the listed indices taken as they are (an index a lower-order block does
+    not have ignores nothing of that block).  The selector expression of the list constructor is interpreted on concrete
+    (block shapes, ignored_dims) cases."""
+    import itertools
+    from types import SimpleNamespace
+
+    from ..guards import Interp, Raised, Unsupported
+
+    repo = ctx.repo
+    fi = repo.meth(repo.cls(f"{PL_MOD}:BaseShampooPreconditionerList"), "__init__")
+    defs = [n for n in A.walk_no_nested(fi.node) if isinstance(n, (ast.Assign, ast.AnnAssign)) and n.value is not None and any(isinstance(t, ast.Name) and t.id == "preconditioned_dims_selector_list" for t in (n.targets if isinstance(n, ast.Assign) else [n.target]))]
+    if len(defs) != 1:
+        raise AnalysisError(f"{rule}: expected one definition of preconditioned_dims_selector_list in {fi.qual}, found {len(defs)}")
+    expr = ast.parse(A.expanded(fi.node, defs[0].value, displays=True), mode="eval").body
+    cfg_param = next((p_ for p_ in fi.params if "preconditioner_config" in p_), "preconditioner_config")
+    shapes = [((3, 4), (5,), (2, 2, 2)), ((7,),), ((2, 3), (4, 5)), ((), (6,)), ((2, 3, 4, 5),)]
+    bad, n = [], 0
+    try:
+        for dims_list, ignored in itertools.product(shapes, ([], [0], [1], [2], [0, 1], [0, 2], [3], [1, 3])):
+            n += 1
+            want = tuple(tuple(d not in ignored for d in range(len(dims))) for dims in dims_list)
+            env = {"self": SimpleNamespace(_dims_list=tuple(dims_list), _preconditioner_config=SimpleNamespace(ignored_dims=list(ignored))), cfg_param: SimpleNamespace(ignored_dims=list(ignored))}
+            try:
+                got = Interp(env).ev(expr)
+                got = tuple(tuple(x) for x in got)
+            except Raised as r_:
+                got = f"raise {r_.exc_name}"
+            if got != want and len(bad) < 2:
+                bad.append((dims_list, ignored, got, want))
+    except Unsupported as u:
+        raise AnalysisError(f"{rule}: selector expression outside the interpreted sub-language: {u}") from u
+    rep.ob(rule, "ignored-dims-selector", not bad, fi.loc(defs[0]), f"{n} (block shapes, ignored_dims) cases: selector[d] == (d not in ignored_dims) for every block" + (f"; for shapes {bad[0][0]} and ignored_dims {bad[0][1]}: code gives {bad[0][2]}, documented {bad[0][3]}" if bad else ""), sample=True)
+
+
+def eigenbasis_evidence_is_the_blocks_own(ctx, rep, rule: str) -> None:
+    """Whether a block is rotated is decided from that block's own stored eigenvectors: in the per-block loops of
+    `precondition` and `_update_eigenvalue_corrections` every condition under which `_precondition_grad` is called is, after
+    expanding locals, `<kf>.factor_matrices_eigenvectors and <kf>.factor_matrices_eigenvectors[0].any()` for the loop's own
+    Kronecker-factor variable — not a flag computed from another block, not a Python attribute that a checkpoint does not
+    restore (the eigenvectors are checkpointed, all-zero until the first refresh of that block)."""
+    repo = ctx.repo
+    ci = repo.cls(f"{PL_MOD}:EigenvalueCorrectedShampooPreconditionerList")
+    n = 0
+    for mname in ("precondition", "_update_eigenvalue_corrections"):
+        fi = repo.meth(ci, mname)
+        cfg = CFG(fi.node)
+        for loop in [l for l in A.walk_no_nested(fi.node) if isinstance(l, ast.For) and "_masked_kronecker_factors_list" in _norm(l.iter)]:
+            # the loop variable bound to the Kronecker factors
+            kf = None
+            if isinstance(loop.target, ast.Tuple) and isinstance(loop.iter, ast.Call) and _norm(loop.iter.func) == "zip":
+                for t, a in zip(loop.target.elts, loop.iter.args):
+                    if "_masked_kronecker_factors_list" in _norm(a) and isinstance(t, ast.Name):
+                        kf = t.id
+            elif isinstance(loop.target, ast.Name):
+                kf = loop.target.id
+            calls = [c for c in A.calls(ast.Module(body=loop.body, type_ignores=[]), nested=True) if isinstance(c.func, ast.Attribute) and c.func.attr == "_precondition_grad"]
+            for c in calls:
+                cn = cfg.node_of(c)
+                conds = [(t, lab) for t, lab in cfg.branch_conditions(cn) if t.kind == "test" and any(t.ast is x for x in ast.walk(loop))] if cn is not None else []
+                for t, lab in conds:
+                    n += 1
+                    test = t.ast.test
+                    for _ in range(3):  # a named condition (`use_eigenbasis = …`) is the condition
+                        if isinstance(test, ast.Name):
+                            ds = A.assignments_to(fi.node, test.id)
+                            if len(ds) == 1:
+                                test = ds[0]
+                                continue
+                        break
+                    txt = " ".join(ast.unparse(A.emptiness_normal(ast.parse(A.expanded(fi.node, test), mode="eval").body)).split())
+                    want = f"{kf}.factor_matrices_eigenvectors and {kf}.factor_matrices_eigenvectors[0].any()"
+                    ok = kf is not None and txt == want and lab == "T"
+                    rep.ob(rule, f"eigenbasis-evidence-is-the-block's-own:{mname}", ok, fi.loc(t.ast), f"`_precondition_grad` is reached under `{txt[:110]}`; documented: `{want}` (the block's own checkpointed eigenvectors, non-zero once computed)", sample=True)
+    rep.floor(rule, "conditions guarding the rotation in the per-block loops", n, 2)
+
+
 def allocation_dtypes(ctx) -> dict[str, set[str]]:
     """state kind -> set of dtype expressions used at its allocate_zeros_tensor call sites."""
     repo = ctx.repo
@@ -289,6 +367,8 @@ def run(ctx, rep) -> None:
     rep.rule("C03.10", "inverse-root selection per tensor order (override 0 -> default rule 2, n -> n, sequence -> entry of that order); the gradient lists handed to the preconditioner are read-only inputs (the direction is computed on a copy)")
     rep.attempt("inverse_root_selection", inverse_root_selection, ctx, rep, "C03.10")
     rep.attempt("gradients_are_inputs", gradients_are_inputs, ctx, rep, "C03.10")
+    rep.attempt("eigenbasis_evidence", eigenbasis_evidence_is_the_blocks_own, ctx, rep, "C03.2")
+    rep.attempt("ignored_dims_selector", ignored_dims_selector, ctx, rep, "C03.2")
     from .c09 import bias_correction_every_step
 
     rep.attempt("bias_correction_every_step", bias_correction_every_step, ctx, rep, "C03.6")
